@@ -75,6 +75,9 @@ def matrix():
                     refuted.append({"family": name, "variant": v, "violated": r["violated"], "distinct_states": r.get("distinct")})
         res[alt] = {"switches": sw, "refuted_by": refuted}
         json.dump(res, open(os.path.join(lib.SPECS, "switch_matrix.json"), "w"), indent=1)
+    r = clht.run_freeze("S7-clear-vs-grow", "Map", {"LoadOnMissWaits": "TRUE"}, timeout=3600)
+    print("LoadOnMissWaits=TRUE (CLHT_Freeze)", r["violated"], flush=True)
+    res["LoadOnMissWaits=TRUE"] = {"switches": {"LoadOnMissWaits": "TRUE"}, "refuted_by": [{"family": "S7-clear-vs-grow", "variant": "Map/CLHT_Freeze", "violated": r["violated"], "distinct_states": r.get("distinct")}] if r["violated"] and r["violated"] != "error" else []}
     import cacheimpl
     for alt, (sw, fams) in cacheimpl.ALTERNATIVES.items():
         refuted = []
